@@ -72,6 +72,16 @@ fn judge(c: &Case, p: &Probe) -> Judge {
     }
     // ---- whole message
     let js = catch(|| serde_json::to_string(&msg)).map_err(|e| Fail::new(format!("C20/{}", panic_sig(&e)), format!("serialising panicked: {e}")))?.map_err(|e| Fail::new("C20/serialize-error", format!("to_string failed: {e}")))?;
+    // damaged documents first (their outcome is not asserted): nothing may carry over from a failed
+    // deserialisation to the next one on the same thread
+    for cut in [js.len() / 3, js.len() * 2 / 3, js.len().saturating_sub(2)] {
+        let mut k = cut;
+        while !js.is_char_boundary(k) {
+            k -= 1;
+        }
+        let _ = catch(|| serde_json::from_str::<IppRequestResponse>(&js[..k]).is_ok());
+        p.extra_eval(1);
+    }
     let back: IppRequestResponse = catch(|| serde_json::from_str::<IppRequestResponse>(&js))
         .map_err(|e| Fail::new(format!("C20/{}", panic_sig(&e)), format!("deserialising panicked: {e}")))?
         .map_err(|e| Fail::new("C20/deserialize-error", format!("from_str failed on the serialiser's own output: {e}; json={}", js.chars().take(400).collect::<String>())))?;
@@ -124,7 +134,7 @@ fn main() {
         "quick" | "thorough" => {
             let tier = if args[2] == "quick" { Tier::Quick } else { Tier::Thorough };
             let ctx = Ctx::new("C20", tier, "exploration");
-            ctx.set_rule("proptest-generated model messages (domain of C01, utc_dir widened to any char) serialised with serde_json and deserialised: header, groups, names, values must be equal WITHOUT identifying one-element sets; re-serialising gives the same JSON document (map-order-insensitive); payload reads as empty afterwards; bare IppAttributes and every bare IppValue round-trip too. Non-trivial = contains a raw-octet (Other) value with data, a collection nested >=2, or non-ASCII text/char; distinct by hash of the model message.");
+            ctx.set_rule("proptest-generated model messages (domain of C01, utc_dir widened to any char) serialised with serde_json and deserialised (after three truncated copies of the same document have been fed to the deserialiser on the same thread, outcome not asserted): header, groups, names, values must be equal WITHOUT identifying one-element sets; re-serialising gives the same JSON document (map-order-insensitive); payload reads as empty afterwards; bare IppAttributes and every bare IppValue round-trip too. Non-trivial = contains a raw-octet (Other) value with data, a collection nested >=2, or non-ASCII text/char; distinct by hash of the model message.");
             ctx.assume("JSON (serde_json) is the carrier format");
             let (shards, per) = tier.pick((16, 6000), (16, 100000));
             run_prop(&ctx, "serde-roundtrip", shards, per, case, judge, |c| mmsg_json(&c.m));
